@@ -8,6 +8,7 @@ from .tdvp_algorithms import (TDVPAlgorithm,
                               FirstOrderOneSiteTDVP,
                               SecondOrderOneSiteTDVP,
                               SecondOrderTwoSiteTDVP)
+from .tdvp_algorithms.tdvp_algorithm import TDVPConfig as TDVPAlgorithmConfig
 from .ttn_time_evolution import TTNTimeEvolutionConfig
 from ..operators.tensorproduct import TensorProduct
 from ..ttns import TreeTensorNetworkState
@@ -44,7 +45,7 @@ class TDVPConfig:
         else:
             self.svd_params = svd_params
         if time_evo_config is None:
-            self.time_evo_config = TTNTimeEvolutionConfig()
+            self.time_evo_config = TDVPAlgorithmConfig()
         else:
             self.time_evo_config = time_evo_config
 
